@@ -237,6 +237,7 @@ def runCase (c : Case) (onlyUnfused : Bool := false) : Array String := Id.run do
     let mut maxIters := 0
     let mut hang := "none"
     let mut nonfinite := false
+    let mut gaveup := false
     let mut lastOk : Option (Float32 × Assign Float32) := none
     let mut stable := false
     let mut prev : Option (Float32 × Assign Float32) := none
@@ -250,6 +251,7 @@ def runCase (c : Case) (onlyUnfused : Bool := false) : Array String := Id.run do
           out := out.push s!"MISMATCH ret {tag} g {r.g} model r {hx st.r} vars {showAssign st.vars} iters {st.iters} real r {hx rr} vars {showAssign sol}"
         if st.iters > maxIters then maxIters := st.iters
         if st.log.any (fun e => !e.step.isFinite) then nonfinite := true
+        if st.gaveUp then gaveup := true
         match prev with
         | some (pr, ps) => if sameF pr rr && sameAssign ps sol then stable := true
         | none => pure ()
@@ -273,7 +275,7 @@ def runCase (c : Case) (onlyUnfused : Bool := false) : Array String := Id.run do
     | none => pure ()
     | some u =>
       let G := c.userGas
-      let eff := decGas G                       -- iterations the budget admits
+      let eff := G - 1                          -- iterations the budget admits
       -- (a budget beyond the sweep on a trajectory that has not settled ends in `.outerFuel` below)
       if false then
         out := out.push s!"skip user {tag} gas {G} beyond sweep {lastG}"
@@ -304,7 +306,7 @@ def runCase (c : Case) (onlyUnfused : Bool := false) : Array String := Id.run do
           out := out.push s!"ok userlong {tag} gas {G} model still iterating after {st.iters} iterations (budget {eff})"
         | some _, .outerFuel st =>
           out := out.push s!"skip user {tag} gas {G} beyond sweep: model still iterating after {st.iters} iterations (budget {eff})"
-    out := out.push s!"info case {c.id} maxiters {maxIters} hang {hang} nonfinite_accepted {if nonfinite then 1 else 0} fused {v.1} {v.2}"
+    out := out.push s!"info case {c.id} maxiters {maxIters} hang {hang} nonfinite_accepted {if nonfinite then 1 else 0} gaveup {if gaveup then 1 else 0} fused {v.1} {v.2}"
     return out
 
 /-- IEEE facts the theorems assume of the scalar (`Laws` in LibfiveProofs/Solver.lean), tested at
@@ -319,6 +321,7 @@ def lawCheck : Array String := Id.run do
   let mut out : Array String := #[]
   let mut bad := 0
   let mut szero := 0
+  let mut maxHalv := 0
   -- bit-strict; the only tolerated exception is the sign of a zero result (`-0 - (-0) = +0`):
   -- the model scalar has one zero, IEEE has two — counted and reported, see known finding
   -- C17:linesearch-hang-signed-zero-step
@@ -337,7 +340,12 @@ def lawCheck : Array String := Id.run do
   for s in fin do
     if !(S.half s).isFinite then bad := bad + 1; out := out.push s!"LAWFAIL half_finite {hx s}"
     let mut x := s
-    for _ in [0:300] do x := S.half x
+    let mut cnt := 0
+    for _ in [0:300] do
+      if !(x == 0) then
+        x := S.half x
+        cnt := cnt + 1
+    if cnt > maxHalv then maxHalv := cnt
     if !(x == 0) then bad := bad + 1; out := out.push s!"LAWFAIL halves_to_zero {hx s}"
     if !(S.lt (S.abs (S.sub s s)) S.eps) then bad := bad + 1; out := out.push s!"LAWFAIL sub_self {hx s}"
   for a in L do
@@ -345,7 +353,7 @@ def lawCheck : Array String := Id.run do
       if (S.div a b).isFinite && !a.isFinite then bad := bad + 1; out := out.push s!"LAWFAIL div_finite {hx a} {hx b}"
   for x in [Float32.ofBits 0x7fc00000, Float32.ofBits 0x7f800000, Float32.ofBits 0xff800000] do
     if !sameF (S.half x) x then bad := bad + 1; out := out.push s!"LAWFAIL half_fixed {hx x}"
-  if bad == 0 then out := out.push s!"ok laws {L.length} landmarks signed-zero-exceptions {szero}"
+  if bad == 0 then out := out.push s!"ok laws {L.length} landmarks signed-zero-exceptions {szero} max-halvings-to-zero {maxHalv}"
   return out
 
 def run (args : List String) (lines : Array String) : Array String := Id.run do
